@@ -148,14 +148,13 @@ class StochasticAtomGraph:
 
             if graph_bd.transitions is not None:
                 prob = graph_bd.transitions
+                first_atom = graph_bd.atom_bonding_to + nested_offset[graph_bd_token_idx]
+                terminating_bd = []
                 for i, p in enumerate(prob):
                     other_bd = element.bond_descriptors[i]
-                    if graph_bd.is_compatible(other_bd):
+                    if graph_bd.is_compatible(other_bd) and p > 0:
                         other_bd_token_idx = _find_bd_token(element, other_bd)
-                        if p > 0:
-                            first_atom = (
-                                graph_bd.atom_bonding_to + nested_offset[graph_bd_token_idx]
-                            )
+                        if other_bd_token_idx < len(element.repeat_tokens):
                             second_atom = (
                                 other_bd.atom_bonding_to + nested_offset[other_bd_token_idx]
                             )
@@ -168,15 +167,30 @@ class StochasticAtomGraph:
                                 termination_weight=0,
                                 transition_weight=0,
                             )
-                            self.graph.add_edge(
-                                first_atom,
-                                second_atom,
-                                bond_type=int(graph_bd.bond_type),
-                                stochastic_weight=0,
-                                static_weight=0,
-                                termination_weight=graph_bd.weight,
-                                transition_weight=0,
-                            )
+                        else:
+                            terminating_bd.append((other_bd, p))
+                # Termination does not follow the listed transitions, every compatible end group is possible.
+                for other_bd in element.bond_descriptors:
+                    other_bd_token_idx = _find_bd_token(element, other_bd)
+                    if (
+                        graph_bd.is_compatible(other_bd)
+                        and other_bd.weight > 0
+                        and other_bd_token_idx >= len(element.repeat_tokens)
+                        and other_bd not in [bd for bd, _ in terminating_bd]
+                    ):
+                        terminating_bd.append((other_bd, other_bd.weight))
+                for other_bd, weight in terminating_bd:
+                    other_bd_token_idx = _find_bd_token(element, other_bd)
+                    second_atom = other_bd.atom_bonding_to + nested_offset[other_bd_token_idx]
+                    self.graph.add_edge(
+                        first_atom,
+                        second_atom,
+                        bond_type=int(graph_bd.bond_type),
+                        stochastic_weight=0,
+                        static_weight=0,
+                        termination_weight=weight,
+                        transition_weight=0,
+                    )
             else:
                 for other_bd in element.bond_descriptors:
                     if graph_bd.is_compatible(other_bd) and other_bd.weight > 0:
